@@ -22,6 +22,21 @@ func PathMatch(target, path Expr) bool {
 		}
 	}
 	for i, f := range target {
+		if _, ok := f.(Descent); ok {
+			// A descent matches the element itself as well as any element
+			// below it so the rest of the target is tried on the path as
+			// is, even when it is used up, before dropping elements.
+			rest := target[i+1:]
+			for {
+				if PathMatch(rest, path) {
+					return true
+				}
+				if len(path) == 0 {
+					return false
+				}
+				path = path[1:]
+			}
+		}
 		if len(path) == 0 {
 			return false
 		}
@@ -69,15 +84,6 @@ func PathMatch(target, path Expr) bool {
 		case *Filter:
 			// Assume a match since there is no data for comparison.
 			path = path[1:]
-		case Descent:
-			rest := target[i+1:]
-			for 0 < len(path) {
-				if PathMatch(rest, path) {
-					return true
-				}
-				path = path[1:]
-			}
-			return false
 		default:
 			return false
 		}
